@@ -553,6 +553,8 @@ def c06(tier):
         specs.append({'seed': 1, 'grammars': [g.to_json()], 'flavour': 'asan', 'modes': [0, 3, 4], 'tier': tier, 'timeout': 1200, 'explicit_inputs': [[d.hex() for d in ins]]})
     merge(ck, common.pmap(sfc.worker, specs))
     merge(ck, common.pmap(sfc.regex_worker, [(common.seed() * 17 + i, 400 if q else 4000, 'asan') for i in range(8 if q else 32)]))
+    ctp = rxc.gen_patterns(rnd, 48 if q else 600, max_positions=20) + rxc.rr.hand_corpus()[:24]
+    merge(ck, common.pmap(rxc.judge_ct, [('C06', c, 'asan0', common.seed() + i) for i, c in enumerate(chunks(ctp, 12))]))
     if not q:
         merge(ck, [fuzz_targets(tier)])
     ck.cov['rule'] = ('conflict-free grammars (core corpus, string/regex/typed terms, fixed lexer term sets, error rules, scripted custom lexers) built with clang ASan+UBSan (-fno-sanitize-recover, '
